@@ -168,7 +168,8 @@ def run_case(case):
         mb, Pb = extract.normal_dense(extract.tree_index(solB.u, ib))
         em, ec = dev(mb, Pb, ma, Pa, flA[ia])
         obs["max_dev_subset"] = max(obs.get("max_dev_subset", 0.0), em, ec)
-        if not (em <= 1e-8 and ec <= 1e-8):
+        tol_s = 1e-8 if nu <= 3 else 1e-6  # two eager runs with different interpolation nodes: rounding grows with the order
+        if not (em <= tol_s and ec <= tol_s):
             viols.append(util.viol("subset_values", f"checkpoint t={A[ia]}: value depends on the other checkpoints (mean/cov differ by {em:.3g}/{ec:.3g})", tags=tags,
                                    witness={"t": A[ia], "A": A, "B": B, "layouts": layouts}))
             break
@@ -251,7 +252,7 @@ def run_case(case):
         em, ec = dev(mt, Pt, mr, Pr, floors_mod.floors_for_grid(nu, d, B, scale=sc_max)[-1])
         obs["terminal_compared"] = obs.get("terminal_compared", 0) + 1
         obs["max_dev_terminal"] = max(obs.get("max_dev_terminal", 0.0), em, ec)
-        tol_t = 1e-6 if cal == "dynamic" else 1e-8  # jit vs eager: dynamic scale estimates differ by their rounding sensitivity
+        tol_t = 1e-6 if (cal == "dynamic" or nu >= 4) else 1e-8  # jit vs eager: dynamic scale estimates differ by their rounding sensitivity
         if not (em <= tol_t and ec <= tol_t):
             viols.append(util.viol("terminal_values", f"terminal-value routine (clip={clip}) differs from the last checkpoint entry ({em:.3g}/{ec:.3g})", tags=tags))
     sigs = ["|".join(str(tags[k]) for k in ("fact", "cal", "ts", "strategy", "nu")) + "|" + "+".join(sorted(layouts))]
